@@ -707,7 +707,8 @@ def genNestProgram (big : Bool) : Gen Out := do
     -- unnest inverts nest
     let attrs0 ← subsetOf h
     let attrs := if attrs0.isEmpty then h.take 1 else attrs0
-    let n := "n"
+    -- the nest attribute may reuse the name of an attribute that is nested away (`R nest |n| n`)
+    let n ← if (← chance 1 2) && isRel then pick attrs else pure "n"
     let ok := isRel || Spec.rowsOf v = []
     let o := mk s!"({e.src} nest {namesSrc attrs}{n}) unnest {n}"
       (resBind e.model fun r => resBind (nestExpr false r attrs n) fun r' => unnestExpr r' n)
@@ -718,17 +719,18 @@ def genNestProgram (big : Bool) : Gen Out := do
     -- unnest of a literal with nested relations (one of them possibly empty)
     let attrs0 ← subsetOf h
     let attrs := if attrs0.isEmpty then h.take 1 else attrs0
-    let nv := Spec.nest v attrs "n"
+    let nm ← if (← chance 1 2) && isRel then pick attrs else pure "n"
+    let nv := Spec.nest v attrs nm
     let extra ← chance 1 3
     let keyNames := h.filter fun m => !attrs.contains m
     let extraRow : List V := if extra && isRel then
-        [V.mkTup (("n", V.mkSet []) :: keyNames.map fun k => (k, V.num 7))] else []
+        [V.mkTup ((nm, V.mkSet []) :: keyNames.map fun k => (k, V.num 7))] else []
     let lit := match nv with
       | .set xs => V.mkSet (xs ++ extraRow)
       | x => x
     let ok := isRel || Spec.rowsOf v = []
-    let o := mk s!"{vSrc lit} unnest n" (unnestExpr (ofV lit) "n")
-      (if ok then some (Spec.unnest lit "n") else none) "unnest-lit"
+    let o := mk s!"{vSrc lit} unnest {nm}" (unnestExpr (ofV lit) nm)
+      (if ok then some (Spec.unnest lit nm) else none) "unnest-lit"
     pure { o with cls := orCls o.cls (valueClass lit) }
   | 9 | 10 =>
     -- rank
